@@ -377,7 +377,7 @@ def run(tier, seed):
     modes = core.rotate(isas.modes(), seed)
     ctx = mp.get_context("fork")
     with ctx.Pool(core.NPROC, initializer=core._init_worker, maxtasksperchild=1) as pool:
-        res = pool.map(mode_unit, [(isa, mode, tier) for isa, mode in modes], 1)
+        res = core._watched_map(pool, mode_unit, [(isa, mode, tier) for isa, mode in modes], 1)
     tot = {"states": 0, "transitions": 0, "probe_evals": 0}
     per = []
     for (isa, mode), r in zip(modes, res):
